@@ -449,14 +449,14 @@ class Corr:
             return i
 
         for t in range(self.T):
-            for i in range(N):
-                for j in range(N):
-                    if periodic:
+            if not periodic and (t + 2 * (N - 1)) >= self.T:
+                new_content[t] = None
+            elif any(self.content[wrap(t + i + j)] is None for i in range(N) for j in range(N)):
+                new_content[t] = None
+            else:
+                for i in range(N):
+                    for j in range(N):
                         new_content[t][i, j] = self.content[wrap(t + i + j)][0]
-                    elif (t + i + j) >= self.T:
-                        new_content[t] = None
-                    else:
-                        new_content[t][i, j] = self.content[t + i + j][0]
 
         return Corr(new_content)
 
